@@ -18,6 +18,7 @@ def run(ctx):
     pairs.run_pairs(ctx, "C13", pairs=[p for p in pairs.all_pairs() if "EMPTY" in p or "SCAN" in p] + pairs.TRIPLES, sample=None if not ctx.quick else 230)
     n = 16 if ctx.quick else 120
     corelib.run_modes(ctx, "C13", [("core", n), ("contend", n // 2)])
+    corelib.repo_tests(ctx, "C13")
     ctx.cov["distinct_nontrivial"] = len(ctx.notes.get("event_kinds", {}))
     ctx.cov["rule"] = ("evaluations = hook/harness events of real executions checked step by step by TLC against "
                        "NsqdAbs; distinct = event kinds (spec actions) exercised")
